@@ -18,7 +18,7 @@ CONSTANTS RawSpan,              \* raw log-domain levels -RawSpan..RawSpan offer
           WbSignsStride,        \* 0: off; k > 0: all {-10,10}^16 residual vectors for the WB first-stage vectors i1 with (i1 + StrideOffset) % k = 0
           NbTernaryStride,      \* 0: off; k > 0: all {-10,0,10}^10 residual vectors for the NB/MB first-stage vectors i1 with (i1 + StrideOffset) % k = 0
           StrideOffset,         \* the strided families take the first-stage vectors with (i1 + StrideOffset) % k = 0
-          WbHalfSigns           \* BOOLEAN: {-10,10} on 8 coefficients, 0 elsewhere (both halves, even/odd) for WB
+          WbHalfSigns           \* WB, {-10,10} on 8 coefficients and 0 elsewhere: 0 off, 1 lower/upper half, 2 also even/odd coefficients
 VARIABLE s
 
 -----------------------------------------------------------------------------
@@ -108,10 +108,9 @@ ResFamilies(cbSel, i1, o, slice) ==
   \cup (IF cbSel = 0 /\ NbSigns THEN SignsSlice(o, slice) ELSE {})
   \cup (IF cbSel = 0 /\ NbTernaryStride > 0 /\ (i1 + StrideOffset) % NbTernaryStride = 0 THEN TernSlice(o, slice) ELSE {})
   \cup (IF cbSel = 1 /\ WbSignsStride > 0 /\ (i1 + StrideOffset) % WbSignsStride = 0 THEN SignsSlice(o, slice) ELSE {})
-  \cup (IF cbSel = 1 /\ WbHalfSigns /\ slice = 1
-        THEN Half(o, 1..8, {-10, 10}) \cup Half(o, 9..16, {-10, 10})
-             \cup Half(o, {1, 3, 5, 7, 9, 11, 13, 15}, {-10, 10}) \cup Half(o, {2, 4, 6, 8, 10, 12, 14, 16}, {-10, 10})
-        ELSE {})
+  \cup (IF cbSel = 1 /\ WbHalfSigns >= 1 /\ slice = 1 THEN Half(o, 1..8, {-10, 10}) \cup Half(o, 9..16, {-10, 10}) ELSE {})
+  \cup (IF cbSel = 1 /\ WbHalfSigns >= 2 /\ slice = 2
+        THEN Half(o, {1, 3, 5, 7, 9, 11, 13, 15}, {-10, 10}) \cup Half(o, {2, 4, 6, 8, 10, 12, 14, 16}, {-10, 10}) ELSE {})
 
 NlsfInit == \E cbSel \in {0, 1} : \E i1 \in 0..(CB(cbSel).nv - 1), sl \in 0..(NSlices - 1) :
                s = [m |-> "n0", cb |-> cbSel, i1 |-> i1, slice |-> sl]
